@@ -76,6 +76,39 @@ def collect(src: Path) -> dict:
     return out
 
 
+def py_monitor(src: Path) -> set:
+    """record (file relative to the tree, line) of every line of the staged mahotas Python sources that executes in this
+    process and in the workers forked from it (sys.monitoring, each location reported once)"""
+    mon = sys.monitoring
+    tool = mon.COVERAGE_ID
+    mon.use_tool_id(tool, 'verif-coverage')
+    hits: set = set()
+    root = str(src.resolve()) + '/'
+
+    def on_line(code, line):
+        fn = code.co_filename
+        if fn.startswith(root):
+            hits.add((fn[len(root):], line))
+        return mon.DISABLE
+    mon.register_callback(tool, mon.events.LINE, on_line)
+    mon.set_events(tool, mon.events.LINE)
+    return hits
+
+
+def py_executable(path: Path) -> set:
+    """line numbers carrying code in a Python source (docstrings and def/class header lines excluded where possible)"""
+    import types
+    out = set()
+    todo = [compile(path.read_text(), str(path), 'exec')]
+    while todo:
+        co = todo.pop()
+        for _, _, ln in co.co_lines():
+            if ln is not None and ln > 0:
+                out.add(ln)
+        todo += [c for c in co.co_consts if isinstance(c, types.CodeType)]
+    return out
+
+
 def ranges_of(where: str) -> list[tuple[str, int, int]]:
     res = []
     cur = None
@@ -111,7 +144,18 @@ def main():
     src = cov_build()
     core.stage_build = lambda asan=False: src if not asan else _orig_stage(asan)     # plain workers use the instrumented build
     libc = ctypes.CDLL(None)
-    os._exit = lambda code=0: libc.exit(int(code))      # forked workers: run the C destructors (gcov flush)
+    pydir = core.CACHE / f'cov-py-{os.getpid()}'
+    pydir.mkdir(parents=True, exist_ok=True)
+    hits = py_monitor(src)
+
+    def _leave(code=0):
+        # forked workers: write the Python lines this process executed, then run the C destructors (gcov flush)
+        try:
+            (pydir / f'{os.getpid()}.json').write_text(json.dumps(sorted(hits)))
+        except Exception:
+            pass
+        libc.exit(int(code))
+    os._exit = _leave
     os.environ['VERIF_EVIDENCE_DIR'] = str(core.CACHE / 'cov-evidence')
     outdir = V / 'design-notes' / 'coverage'
     outdir.mkdir(parents=True, exist_ok=True)
@@ -120,18 +164,25 @@ def main():
         t0 = time.time()
         rc = engine.run_property(f'harness.props.{pid.lower()}', tier, int(os.environ.get('VERIF_SEED', '0')))
         cov = collect(src)
+        pyhits = set(map(tuple, hits))
+        for f in pydir.glob('*.json'):
+            pyhits |= set(map(tuple, json.loads(f.read_text())))
+            f.unlink()
+        hits.clear()
+        for f in {x for x in props[pid]['anchors']['files'] if x.endswith('.py')}:
+            exe = py_executable(src / f)
+            got = {ln for fn, ln in pyhits if fn == f}
+            cov[f] = {ln: (1 if ln in got else 0) for ln in exe}
         p = props[pid]
         rep = dict(property=pid, tier=tier, check_exit=rc, wall_s=round(time.time() - t0, 1), files={}, anchors=[])
         for f in p['anchors']['files']:
-            if f.endswith('.py'):
-                continue
             t = cov.get(f, {})
             ex = [n for n, c in t.items() if c > 0]
             never = [n for n, c in t.items() if c == 0]
             rep['files'][f] = dict(executable=len(t), executed=len(ex), never=compress(never))
         for mech in p['anchors']['mechanism']:
             for f, a, b in ranges_of(mech['where']):
-                if f.endswith(('.py', '.rst')):
+                if f.endswith('.rst'):
                     continue
                 t = {n: c for n, c in cov.get(f, {}).items() if a <= n <= b}
                 rep['anchors'].append(dict(name=mech['name'], file=f, lines=f'{a}-{b}', executable=len(t),
